@@ -36,8 +36,8 @@ Theorem C10_unverifiable_not_passed : forall (c : cfg) (e : env) (ctx_ok : bool)
 Proof. exact unverifiable_not_passed. Qed.
 Print Assumptions C10_unverifiable_not_passed.
 
-(* QuorumCert.Equals (called by VerifyAnyQC on the block QC and the high QC of a verified aggregate
-   QC) is total: for every combination of nil / present signatures, equal or different views, hashes
+(* QuorumCert.Equals (an exported method; until /repo d1e8a5e VerifyAnyQC called it on the block QC and the
+   high QC of a verified aggregate QC, now no handler does) is total: for every combination of nil / present signatures, equal or different views, hashes
    and bytes it returns, and certificates that differ in signature presence are never equal. *)
 Theorem C10_qc_equals_total : forall (g : guards) (vh_eq a b same_bytes : bool),
   g_equals g = true ->
@@ -56,8 +56,8 @@ Theorem C10_never_panics_unguarded_refuted :
   handle (mkcfg Ecdsa false true (set_guard 5 false all_guards)) env_all true w_agg_sync = Panic /\
   handle (mkcfg Ecdsa true false (set_guard 6 false all_guards)) env_all true w_cache = Panic /\
   handle (mkcfg Bls false false (set_guard 7 false all_guards)) env_all false w_bitfield = Panic /\
-  handle (mkcfg Ecdsa false true (set_guard 8 false all_guards)) env_signed_hq true w_equals = Panic /\
-  handle (mkcfg Ecdsa false true (set_guard 8 false all_guards)) env_unsigned_hq true w_equals' = Panic /\
+  qc_equals (set_guard 8 false all_guards) true false true false = Panic /\
+  qc_equals (set_guard 8 false all_guards) true true false false = Panic /\
   handle (mkcfg_lat Ecdsa false (set_guard 9 false all_guards)) env_outside true w_lat_newview = Panic /\
   handle (mkcfg_lat Ecdsa false (set_guard 9 false all_guards)) env_outside false w_lat_timeout = Panic /\
   handle (mkcfg_lat Ecdsa true (set_guard 9 false all_guards)) env_outside true w_lat_propose = Panic.
